@@ -278,7 +278,7 @@ func hugeTuple(a []string) bool {
 	return false
 }
 
-func genF2(g *fw.GenCtx, em *emitter) (reps []Exec) {
+func genF2(g *fw.GenCtx, emNormal, emHuge *emitter) (reps []Exec) {
 	fns, err := loadBuiltins(g.Repo)
 	if err != nil {
 		panic(err)
@@ -404,6 +404,12 @@ func genF2(g *fw.GenCtx, em *emitter) (reps []Exec) {
 				}
 			}
 			for ti, a := range tuples {
+				// a tuple with a huge count may exhaust the memory, which kills the worker and with it every
+				// observation of its case: such tuples are executed one per case
+				em := emNormal
+				if hugeTuple(a) {
+					em = emHuge
+				}
 				for sci, sc := range scopes {
 					args := a
 					if strings.HasPrefix(name, "setcookie.") && sc == "FETCH" && len(args) > 0 && args[0] == "resp" {
@@ -429,8 +435,9 @@ func genF2(g *fw.GenCtx, em *emitter) (reps []Exec) {
 			}
 			_ = si
 		}
-		em.mark()
+		emNormal.mark()
 	}
-	em.flush()
+	emNormal.flush()
+	emHuge.flush()
 	return reps
 }
